@@ -12,6 +12,9 @@ func TestC01(t *testing.T) {
 	st := StatsFor("C01")
 	rapid.Check(t, func(rt *rapid.T) {
 		c := GenParseCase(rt, parseCfg)
+		// a quarter of the cases with the library's own []string containers (C02 defers acceptance disagreements,
+		// crashes included, to this check)
+		c.Builtin = chance(rt, 1, 4, "builtin")
 		Report(rt, "C01", "parse", c, CheckC01(c, st))
 	})
 }
